@@ -182,6 +182,10 @@ pub fn run(a: &Args, m: &mut Mon) {
     let mut r = Rng::lane(a.seed, "C02", a.shard, 0);
     if a.shard == 0 {
         small_scope(m);
+        // one function longer than 2^16 segments (size-gated fast paths, 16-bit indices)
+        let big: Vec<f64> = (0..70_001).map(|i| (i / 3) as f64 * 0.5).collect();
+        tag_function(m, &big, &[]);
+        m.count("function_longer_than_65536");
     }
     canaries(m);
     let nfun = a.n(400_000, 20_000_000);
